@@ -1,4 +1,4 @@
----------------------------- MODULE Trace_Persist ----------------------------
+--------------------------- MODULE Trace_BlPersist ---------------------------
 (***************************************************************************)
 (* Validation of executions recorded from the real BlockList               *)
 (* (harness/c18/persist_test.go) against BlPersist.tla.                    *)
